@@ -22,6 +22,12 @@ static UEB_PREFIXES: phf::Set<char> = phf_set! {
 /// If 'nav_node_id' is not an empty string, then the element with that id will have dots 7 & 8 turned on as per the pref
 /// Returns the braille string (highlighted) along with the start/end of the highlight (whole string if no highlight)
 pub fn braille_mathml(mathml: Element, nav_node_id: &str) -> Result<(String, usize, usize)> {
+    #[cfg(mathcat_verif)]
+    if let Some(args) = nav_node_id.strip_prefix(verif::HIGHLIGHT_HOOK) {
+        // verification hook: run the nested highlight_braille_chars on "code|fill|braille" and return its result
+        let parts: Vec<&str> = args.splitn(3, '|').collect();
+        return Ok(highlight_braille_chars(parts[2].to_string(), parts[0], parts[1] == "true"));
+    }
     return BRAILLE_RULES.with(|rules| {
         rules.borrow_mut().read_files()?;
         let rules = rules.borrow();
@@ -2952,6 +2958,26 @@ impl Function for NeedsToBeGrouped {
     
     
     
+#[cfg(mathcat_verif)]
+/// Verification hooks (compiled only with `--cfg mathcat_verif`)
+pub mod verif {
+    use super::*;
+    /// a nav node id starting with this marker makes braille_mathml call its nested highlight_braille_chars directly
+    pub const HIGHLIGHT_HOOK: &str = "\u{F8FF}verif-highlight:";
+
+    /// highlight_braille_chars(braille, code, fill_range) -> (braille, start, end)
+    pub fn highlight_chars(braille: &str, braille_code: &str, fill_range: bool) -> Result<(String, usize, usize)> {
+        let package = Package::new();
+        let math = crate::canonicalize::create_mathml_element(&package.as_document(), "math");
+        let hook_id = format!("{}{}|{}|{}", HIGHLIGHT_HOOK, braille_code, fill_range, braille);
+        return braille_mathml(math, &hook_id);
+    }
+
+    pub fn highlight_cell(ch: char) -> (bool, char, char) {
+        return (is_highlighted(ch), highlight(ch), unhighlight(ch));
+    }
+}
+
 #[cfg(test)]
 mod tests {
     use super::*;
